@@ -94,6 +94,77 @@ func (schemas Schemas) Consolidate() (Schemas, error) {
 	return newSchemas, nil
 }
 
+// AliasCycle looks for objects that are defined as each other without any
+// struct in between (`A: B` and `B: A`, `A: A`, `A: [...A]`): following such
+// references never ends. It returns the objects forming the first cycle found,
+// or nil.
+func (schemas Schemas) AliasCycle() []string {
+	// aliasTarget returns the object a type is an alias of, looking through
+	// arrays and maps.
+	var aliasTarget func(def Type) (RefType, bool)
+	aliasTarget = func(def Type) (RefType, bool) {
+		switch {
+		case def.IsRef():
+			return def.AsRef(), true
+		case def.IsArray():
+			return aliasTarget(def.AsArray().ValueType)
+		case def.IsMap():
+			return aliasTarget(def.AsMap().ValueType)
+		}
+
+		return RefType{}, false
+	}
+
+	const (
+		visiting = 1
+		done     = 2
+	)
+	state := map[string]int{}
+
+	var visit func(ref RefType, path []string) []string
+	visit = func(ref RefType, path []string) []string {
+		key := ref.String()
+		path = append(path, key)
+
+		switch state[key] {
+		case visiting:
+			return path
+		case done:
+			return nil
+		}
+
+		state[key] = visiting
+		defer func() { state[key] = done }()
+
+		obj, found := schemas.LocateObjectByRef(ref)
+		if !found {
+			return nil
+		}
+
+		target, isAlias := aliasTarget(obj.Type)
+		if !isAlias {
+			return nil
+		}
+
+		return visit(target, path)
+	}
+
+	for _, schema := range schemas {
+		var cycle []string
+		schema.Objects.Iterate(func(_ string, obj Object) {
+			if cycle == nil {
+				cycle = visit(obj.SelfRef, nil)
+			}
+		})
+
+		if cycle != nil {
+			return cycle
+		}
+	}
+
+	return nil
+}
+
 func (schemas Schemas) DeepCopy() []*Schema {
 	newSchemas := make([]*Schema, 0, len(schemas))
 
